@@ -14,6 +14,7 @@ var gonumPkgs = []string{
 	"gonum.org/v1/gonum/graph/topo",
 	"gonum.org/v1/gonum/graph/internal/set",
 	"gonum.org/v1/gonum/graph/traverse",
+	"gonum.org/v1/gonum/graph/set/uid",
 }
 
 // staticOverlays returns hand-written replacement files for third-party code
